@@ -797,6 +797,12 @@ var c06Families = []struct{ name, text string }{
 	{"repetition-around-group-of-one", "grammar g; start = { ( \"x\" ) } \"y\";"},
 	{"triple-nesting", "grammar g; start = ( [ ( { \"x\" } ) ] ) \"y\";"},
 	{"group-of-generated-looking-rule", "grammar g; start = ( generic_star ) \"y\"; generic_star = \"x\" | generic_star \"x\";"},
+	{"token-and-rule-alike-under-star", "grammar g; ID = \"i\"; start = \"let\" {ID} \"in\" {id} \";\"; id = \"j\";"},
+	{"token-and-rule-alike-under-opt", "grammar g; NUMBER = /[0-9]/; start = [number] \"x\" [NUMBER] \"y\"; number = \"n\";"},
+	{"keyword-and-rule-alike-in-one-state", "grammar g; start = \"k\" \"a\" | k \"a\" \"b\"; k = \"c\";"},
+	{"keyword-and-rule-alike-call", "grammar g; ID = /[a-z]/; start = stmt; stmt = \"call\" ID \";\" | call \";\"; call = ID \"(\" \")\";"},
+	{"keyword-and-rule-alike-under-group", "grammar g; start = (else) \"s\" (\"else\") \"t\"; else = \"e\";"},
+	{"rule-sequence-vs-underscored-rule", "grammar g; start = [label stmt] \"s\" [label_stmt]; label = \"l\"; stmt = \"t\"; label_stmt = \"u\";"},
 	{"plus-over-alternation", "grammar g; start = {{ \"a\" | \"b\" }} \"c\";"},
 	{"nested-closures", "grammar g; start = { [\"a\"] \"b\" } {{ (\"c\" | \"d\") }};"},
 	{"left-and-right-recursion", "grammar g; start = l r; l = l \"a\" | \"a\"; r = \"b\" r | \"b\";"},
